@@ -1,4 +1,5 @@
 import Fdo.Cbor.Proofs
+import Fdo.Cbor.Fuel
 import Fdo.Gen.Cbor
 /-
 C12 — CBOR decoding of arbitrary bytes is total, bounded and exact.
@@ -28,6 +29,16 @@ theorem unmarshal_no_trailing (b : Bytes) (v : Item) (h : unmarshalRaw b = some 
   · rename_i x heq; simp at h; rw [heq, h]
   · simp at h
 
+
+
+/-- **Totality is not an artefact of the model's fuel.** The model recurses on a fuel argument and
+answers `error` when it runs out; `decode1` (what the driver and the theorems above use) supplies
+2·length + 1. Whatever *any* amount of fuel decodes, `decode1` decodes to the same item with the same
+rest — so an `error` of the model is never "out of fuel", and the real decoder's success on an input
+cannot be misrepresented as a rejection for that reason. -/
+theorem fuel_never_decides (f : Nat) (b : Bytes) (v : Item) (r : Bytes)
+    (h : decode f maxDepth b = some (v, r)) : decode1 b = some (v, r) :=
+  Cbor.decode1_complete f b v r h
 
 /-- **Declared lengths at or above the limit are rejected**, whatever follows the head: a byte
 string, text string, array or map whose head declares `maxLen` (= MaxArrayDecodeLength) or more
